@@ -9,7 +9,8 @@ import shutil
 import sys
 
 VERIF = os.path.dirname(os.path.dirname(os.path.abspath(__file__)))
-ROOT = '/tmp/seed'
+ROOT = os.environ.get('SEED_ROOT', '/tmp/seed')
+RENAME = dict(p.split('=') for p in os.environ.get('SEED_RENAME', '').split(',') if p)   # e.g. A=C,B=D for round 2
 
 
 def main():
@@ -25,7 +26,7 @@ def main():
             if not confirmed:
                 dropped.append((pid, x, {k: r.get(k) for k in ('demo_clean_rc', 'suite_passes', 'demo_patched_rc', 'patch_applies')}))
                 continue
-            out = os.path.join(VERIF, 'seeded', f"{pid}-{x}")
+            out = os.path.join(VERIF, 'seeded', f"{pid}-{RENAME.get(x, x)}")
             os.makedirs(out, exist_ok=True)
             for f in ('patch.diff', 'demo.py', 'NOTES.md'):
                 if os.path.exists(os.path.join(d, f)):
